@@ -504,6 +504,22 @@ impl TypeChecker {
         scope: ScopeRef,
         name: ResolvedName,
     ) -> Result<(), String> {
+        // Everything that can be imported has been declared at this point, so
+        // an import of something that is not there is an error. If it were
+        // accepted, a script that mentions the imported name would make the
+        // compiler look up a declaration that does not exist.
+        let ident = Meta {
+            node: name.ident,
+            id: MetaId(0),
+        };
+        if self
+            .type_info
+            .scope_graph
+            .resolve_name(name.scope, &ident, false)
+            .is_none()
+        {
+            return Err(format!("Could not find `{}`", name.ident));
+        }
         if self
             .type_info
             .scope_graph
